@@ -337,7 +337,7 @@ func pqsPool() *kernel.Pool {
 func C03() int {
 	rep := kernel.NewReport("C03", "exploration")
 	rep.Rule = "for each dataset × configuration k = (layout, dictionary limit, PQS off/on with every query registered after the first block, GOMAXPROCS) " +
-		"the dataset is loaded in the baseline configuration and in k inside one worker and all 116 queries (filters incl. every comparison operator at every occurring value and case-variant equality, boolean forms, free text, stats with and " +
+		"the dataset is loaded in the baseline configuration and in k inside one worker and all 122 queries (filters incl. every comparison operator at every occurring value and case-variant equality, boolean forms, free text, stats with and " +
 		"without group-by, timechart, sort, eval/where, dedup, top) must give identical normalised answers. non-trivial = (dataset, query, k) with a non-empty equal answer; " +
 		"configs_with_<accelerator> counts configurations in which that accelerator's files actually existed"
 	rep.Assume = []string{"datasets hold single-kind dense columns only (mixed/sparse columns are covered, with their known findings, by C02/C04)",
